@@ -38,7 +38,22 @@ RULE = (
     "together completed out of start order; distinct = distinct event-log digests among those"
 )
 
-do_op = do_validate
+async def do_op(sim, request):
+    if request.get("preset_text") is not None:
+        # the caller's own context already holds a text (it validated a single field before, or set the variable by
+        # hand as the docstring of the variable suggests for evaluations outside validation)
+        from ahbicht.content_evaluation.fc_evaluators import text_to_be_evaluated_by_format_constraint
+
+        text_to_be_evaluated_by_format_constraint.set(request["preset_text"])
+    return await do_validate(sim, request)
+
+
+def expected_fc_result(key, text):
+    """what the format-constraint stub answers for (key, text) in text mode (sim/world.py Sim.fc_value)"""
+    from sim.prf import prf
+
+    fulfilled = prf("fc", key, text) % 2 == 0
+    return fulfilled, None if fulfilled else f"E{key}|{text!r}"
 
 
 async def _alone(sim, request):
@@ -119,7 +134,16 @@ def _gen_request(rnd, rid, world, cer_template, universe, fc_owner_pool, big=Fal
         for key in own:
             owners[key] = element["d"]
         roll = rnd.random()
-        if roll < 0.2:
+        fulfilled_rc = [k for k in rc if cer_template["requirement_constraints"].get(k) == "FULFILLED"]
+        if roll < 0.3 and len(own) == 1:
+            # the simplest shapes: the format constraint is certainly evaluated, and what the stub answers for this
+            # element's own input is known without running any library code
+            if fulfilled_rc and rnd.random() < 0.5:
+                ast = ("ta", ("k", rnd.choice(fulfilled_rc)), ("k", own[0]))
+            else:
+                ast = ("k", own[0])
+            element["expect_fc"] = own[0]
+        elif roll < 0.4:
             ast = ("k", own[0]) if len(own) == 1 else (rnd.choice(["and", "or", "xor"]), ("k", own[0]), ("k", own[1]))
         else:
             base, _ = gen_valid(rnd, rnd.randint(0, 1), rc, hints, [], want=("rc", "rc", "hint"))
@@ -139,6 +163,9 @@ def _gen_request(rnd, rid, world, cer_template, universe, fc_owner_pool, big=Fal
                 for key in [k for k, d in owners.items() if d == element["d"]]:
                     del owners[key]
                 element["e"] = donor["e"]
+                element.pop("expect_fc", None)
+                if donor.get("expect_fc"):
+                    element["expect_fc"] = donor["expect_fc"]  # same expression, judged against this element's input
                 for key in [k for k, d in owners.items() if d == donor["d"]]:
                     owners[key] = None
                 # repeated lines of one segment often carry the very same discriminator, too
@@ -149,7 +176,7 @@ def _gen_request(rnd, rid, world, cer_template, universe, fc_owner_pool, big=Fal
                     element["d"] = donor["d"]
     op = {"entry": "deep", "ahb": ahb, "soll": rnd.random() < 0.8}
     return {"rid": rid, "start": 0, "cer": dict(cer_template, hints={k: f"H{k}@{rid}" for k in hints}), "op": op,
-            "owners": owners}
+            "owners": owners, "preset_text": "stale text of the caller" if rnd.random() < 0.35 else None}
 
 
 def generate(seed, tier="quick"):
@@ -261,6 +288,17 @@ def execute(scenario):
             expected = references[rid].get(f"{position}|{segment_status}")
             got = {"ok": reported_by_position[position]}
             checked_elements += 1
+            if node.get("expect_fc") and "requirement_validation" in got["ok"]:
+                want = expected_fc_result(node["expect_fc"], node["input"])
+                have = (got["ok"].get("format_validation_fulfilled"), got["ok"].get("format_error_message"))
+                verdict["probes"]["fc_results_predicted"] = verdict["probes"].get("fc_results_predicted", 0) + 1
+                if tuple(have) != tuple(want):
+                    fail(
+                        verdict,
+                        "format-result-not-from-own-input",
+                        f"{rid} element {node['d']} ({node['e']!r}, input {node['input']!r}): reported {have}, the "
+                        f"format constraint evaluated against the element's own input answers {want}",
+                    )
             if got != expected:
                 fail(
                     verdict,
